@@ -1,5 +1,6 @@
 import Feox.Props.C11
 import Feox.Fmt.Expiry
+import Feox.Fmt.Newest
 /-!
 # C11 (continued) — the absolute expiry instant survives flush and restart, on the bytes
 
@@ -62,5 +63,41 @@ theorem expiry_survives_restart_on_bytes {img : Image} {v lo total : Nat} {info 
       · exfalso; exact hfresh r hrl (by simpa [liveOf] using hkey)
       · rw [hre]) hnd (by simp [findLive])
     simpa [liveOf] using this
+
+/-- **No older generation ever surfaces while a newer one is on the device** (and the documented
+newest-timestamp-wins rule of C10), on the bytes: after the scan of an image that represents a tiled
+data area, what the table shows for a key is one of that key's generations on the device whose
+timestamp no other generation of the key exceeds; it shows nothing only if the device holds no
+generation of the key.  (The removal of expired winners afterwards only filters this table:
+`no_resurrection`.) -/
+theorem recovered_entry_is_a_newest_generation {img : Image} {v lo total : Nat} {info : Gen → RecMeta} {d : Disk} {L : List Rec}
+    (hrep : Rep img v lo total info d) (ht : TiledBy d total L lo)
+    (o : Opts) (journal : List (Nat × Nat)) (hro : o.readOnly = false) (st : ScanSt) (hst : st.live = []) (k : Bytes) :
+    match scan img v total o journal lo st with
+    | .ok st' =>
+      match findLive k st'.live with
+      | none => ∀ r ∈ L, (info r.2.1).key ≠ k
+      | some w => (∃ r ∈ L, w = liveOf info r) ∧ w.key = k ∧ ∀ r ∈ L, (info r.2.1).key = k → (info r.2.1).ts ≤ w.ts
+    | .error e => NotFormatErr e := by
+  have hgo := scan_rep_tiled (o := o) (journal := journal) hro hrep (total - lo) lo L st (Nat.le_refl _) (Nat.le_refl _) ht
+  generalize scan img v total o journal lo st = out at hgo ⊢
+  cases out with
+  | error e => exact hgo
+  | ok st' =>
+    simp only [GoodOutcome] at hgo ⊢
+    rw [hgo.2, hst, ← List.foldl_map (f := liveOf info) (g := absorbLive)]
+    have hw := winner_newest k (L.map (liveOf info))
+    cases hres : findLive k ((L.map (liveOf info)).foldl absorbLive []) with
+    | none =>
+      rw [hres] at hw
+      simp only at hw ⊢
+      intro r hr
+      exact hw (liveOf info r) (List.mem_map.mpr ⟨r, hr, rfl⟩)
+    | some w =>
+      rw [hres] at hw
+      simp only at hw ⊢
+      obtain ⟨h1, h2, h3⟩ := hw
+      obtain ⟨r, hr, rfl⟩ := List.mem_map.mp h1
+      exact ⟨⟨r, hr, rfl⟩, h2, fun r' hr' hk => h3 (liveOf info r') (List.mem_map.mpr ⟨r', hr', rfl⟩) hk⟩
 
 end Feox.C11
